@@ -915,6 +915,7 @@ def str_method(ip, s, name, args, kwargs):
             else None
         if parts is None:
             raise Unsupported("join over a symbolic comprehension")
+        parts = [ip.vc.concretize(p_) if is_enum(p_) else p_ for p_ in parts]
         res = None
         for p in parts:
             if res is None:
